@@ -361,16 +361,17 @@ def confirm(cand, known):
     res = native_script(script)
     doc['native'] = res
     doc['script'] = script
-    if cand['role'] in ('trap', 'no-block-applied-with-a-well-behaved-source'):
-        if res.get('traps', 0) > 0 or res.get('applied', 0) == 0:
-            doc['problems'].append('native heartbeats: %s traps, %s blocks applied, last trap: %s' % (res.get('traps'), res.get('applied'), res.get('last_trap')))
-            for k in known:
-                if k['id'] == 'C13-partial-with-zero-follow-ups':
-                    return 'known:' + k['id'], doc
-            return 'violation', doc
-        return 'not-reproduced', doc
-    doc['problems'].append(cand['role'])
-    return 'violation', doc
+    # every role is judged natively the same way: after the adversarial script and a well-behaved continuation the real
+    # heartbeat must not trap and must have applied a block
+    if res.get('traps', 0) > 0 or res.get('applied', 0) == 0:
+        doc['problems'].append('native heartbeats with reply script %s: %s traps, %s blocks applied, last trap: %s' % (
+            script, res.get('traps'), res.get('applied'), res.get('last_trap')))
+        for k in known:
+            if k['id'] == 'C13-partial-with-zero-follow-ups' and k.get('status') == 'known':
+                return 'known:' + k['id'], doc
+        return 'violation', doc
+    doc['note'] = 'the solver-found schedule does not misbehave natively with this script'
+    return 'not-reproduced', doc
 
 
 def translator_validation(rep):
